@@ -61,6 +61,20 @@ func Witnesses() []*History {
 			},
 		},
 		{
+			// A second tree commits the identical root in the same version; the first (long-lived)
+			// tree's batch is dropped ("root already exists") but the tree is kept in use.
+			Name: "same-root-committed-twice-kept-tree",
+			Ops: []Op{
+				{Kind: KCommit, Ver: 1, Type: TState, Cand: 0, Parent: ParentPrev, Tree: 1, W: []WOp{put("aa", "1"), put("ab", "2"), put("ac", "3"), put("b", "4")}},
+				{Kind: KFinalize, Ver: 1, Final: []int{0}},
+				{Kind: KCommit, Ver: 2, Type: TState, Cand: 0, Parent: ParentPrev},
+				{Kind: KCommit, Ver: 2, Type: TState, Cand: 1, Parent: ParentPrev, Tree: 1, W: []WOp{put("abx", "5"), del("abx")}},
+				{Kind: KFinalize, Ver: 2, Final: []int{1}},
+				{Kind: KCommit, Ver: 3, Type: TState, Cand: 0, Parent: ParentPrev, Tree: 1, W: []WOp{put("d", "6")}},
+				{Kind: KFinalize, Ver: 3, Final: []int{0}},
+			},
+		},
+		{
 			// Badger-only shape: the finalized root is a same-version child of candidate 0 and
 			// removes a node that candidate 0 inherited; candidate 0 stays listed but loses the node.
 			Name:       "badger-same-version-ancestor-loses-node",
